@@ -956,6 +956,10 @@ func main() {
 		sizeDrivenUpload(run, i)
 	}
 	run.FloorCounter("size_driven_uploads_committed", 40)
+	for i, n := 0, run.N(48, 600); i < n; i++ {
+		resumeRetried(run, i)
+	}
+	run.FloorCounter("resume_retried_uploads_committed", 40)
 	for i := 0; i < 32; i++ {
 		knownToOneAndFailing(run, i)
 	}
